@@ -36,7 +36,7 @@ man = {
         "name": "thv-static",
         "path": "/verif/check",
         "serves_properties": [c["property_id"] for c in checks],
-        "kind_free_text": "rustc_private driver (driver/) serialises MIR, resolved callees, a monomorphic call graph and type/impl census of /repo's current tree; python rule engine (rules/) evaluates dominance / census / effect / ownership / provenance / decision-table rules; nothing of tiny-http is executed",
+        "kind_free_text": "rustc_private driver (driver/) serialises MIR, resolved callees, a monomorphic call graph and type/impl census of /repo's current tree; python rule engine (rules/) binds models by structure and role, splices private helpers and small std combinators into their callers (virtual inlining), explores abstract paths by path-sensitive constant/variant propagation in a term domain and evaluates census / effect / ownership / taint / decision-table rules on them; nothing of tiny-http is executed",
     }],
     "checks": checks,
     "notes": meta.get("_notes", ""),
